@@ -413,7 +413,13 @@ pub fn compile(path: &Path, src: &str) -> Result<Compilation, CompilationError> 
     if diagnostics.has_errors() {
         return Err(CompilationError::Compile { diagnostics });
     }
-    let (mono, monoenv) = mono::mono(genv.clone(), core.clone());
+    let (mono, monoenv, unbounded) = mono::mono_with_diagnostics(genv.clone(), core.clone());
+    if !unbounded.is_empty() {
+        return Err(compile_error(format!(
+            "cannot specialise {}: it is instantiated at ever larger types (polymorphic recursion is not supported)",
+            unbounded.join(", ")
+        )));
+    }
     let (lifted_core, liftenv) = lift::lambda_lift(monoenv.clone(), &gensym, mono.clone());
     let (anf, anfenv) = anf::anf_file(liftenv.clone(), &gensym, lifted_core.clone());
     let (go, goenv) = go::compile::go_file(anfenv.clone(), &gensym, anf.clone());
